@@ -118,6 +118,95 @@ Proof.
   repeat (destruct Hv as [Hv|Hv]; [subst v; apply B; lia|]). contradiction.
 Qed.
 
+(** ** 2-D chunk grid *)
+Theorem cells_chunk2_count nx nz : length (cells_chunk2 nx nz) = nx * nz.
+Proof.
+  unfold cells_chunk2. rewrite (length_flat_map_const _ nz).
+  - rewrite seq_length. lia.
+  - intros i _. now rewrite map_length, seq_length.
+Qed.
+
+Theorem nodes_chunk2_count nx nz : length (nodes_chunk2 nx nz) = (nx + 1) * (nz + 1).
+Proof.
+  unfold nodes_chunk2. rewrite (length_flat_map_const _ (nz + 1)).
+  - rewrite seq_length. lia.
+  - intros i _. now rewrite map_length, seq_length.
+Qed.
+
+Theorem nodes_chunk2_order nx nz i j : i <= nx -> j <= nz ->
+  nth (cnode2 nz i j) (nodes_chunk2 nx nz) (0, 0) = (i, j).
+Proof.
+  intros Hi Hj. unfold nodes_chunk2, cnode2. replace ((nz + 1) * i + j) with (i * (nz + 1) + j) by lia.
+  rewrite (nth_flat_map_const _ (nz + 1) _ _ 0).
+  - rewrite seq_nth by lia. cbn [Nat.add].
+    rewrite (nth_indep _ (0, 0) ((fun j0 => (i, j0)) 0)) by (rewrite map_length, seq_length; lia).
+    rewrite map_nth, seq_nth by lia. reflexivity.
+  - intros x. now rewrite map_length, seq_length.
+  - lia.
+  - rewrite seq_length. lia.
+Qed.
+
+Theorem conn_chunk2_corners nz i j : 1 <= i -> 1 <= j ->
+  conn_chunk2 nz i j = [ cnode2 nz (i - 1) (j - 1); cnode2 nz (i - 1) j; cnode2 nz i j; cnode2 nz i (j - 1) ].
+Proof.
+  intros Hi Hj. unfold conn_chunk2, cnode2.
+  repeat match goal with |- _ :: _ = _ :: _ => apply f_equal2; [nia|] end. reflexivity.
+Qed.
+
+Theorem conn_chunk2_in_range nx nz i j v : 1 <= i <= nx -> 1 <= j <= nz -> In v (conn_chunk2 nz i j) -> v < (nx + 1) * (nz + 1).
+Proof.
+  intros Hi Hj Hv. rewrite conn_chunk2_corners in Hv by lia. unfold cnode2 in *. cbn [In] in Hv.
+  assert (B : forall a b, a <= nx -> b <= nz -> (nz + 1) * a + b < (nx + 1) * (nz + 1)).
+  { intros a b Ha Hb. pose proof (Nat.mul_le_mono_l a nx (nz + 1) Ha). lia. }
+  repeat (destruct Hv as [Hv|Hv]; [subst v; apply B; lia|]). contradiction.
+Qed.
+
+(** ** annulus *)
+Theorem cells_annulus_count nt nz : length (cells_annulus nt nz) = nt * nz.
+Proof.
+  unfold cells_annulus. rewrite (length_flat_map_const _ nt).
+  - rewrite seq_length. lia.
+  - intros j _. now rewrite map_length, seq_length.
+Qed.
+
+Theorem nodes_annulus_count nt nz : length (nodes_annulus nt nz) = nt * (nz + 1).
+Proof.
+  unfold nodes_annulus. rewrite (length_flat_map_const _ nt).
+  - rewrite seq_length. lia.
+  - intros j _. now rewrite map_length, seq_length.
+Qed.
+
+(** the four corners of cell (i,j): the nodes i and its successor around the ring (node 1 after node nt) on the
+    rings j-1 and j *)
+Theorem conn_annulus_corners nt i j : 1 <= i <= nt -> 1 <= j ->
+  conn_annulus nt i j = [ anode nt (awrap nt i) (j - 1); anode nt i (j - 1); anode nt i j; anode nt (awrap nt i) j ].
+Proof.
+  intros Hi Hj. unfold conn_annulus, anode, awrap. cbn zeta.
+  destruct (Nat.eqb_spec i nt) as [E|E].
+  - subst i. repeat match goal with |- _ :: _ = _ :: _ => apply f_equal2; [nia|] end. reflexivity.
+  - repeat match goal with |- _ :: _ = _ :: _ => apply f_equal2; [nia|] end. reflexivity.
+Qed.
+
+Lemma awrap_range nt i : 1 <= i <= nt -> 1 <= awrap nt i <= nt.
+Proof. intros H. unfold awrap. destruct (Nat.eqb_spec i nt); lia. Qed.
+
+Theorem conn_annulus_in_range nt nz i j v : 1 <= i <= nt -> 1 <= j <= nz -> In v (conn_annulus nt i j) -> v < nt * (nz + 1).
+Proof.
+  intros Hi Hj Hv. rewrite conn_annulus_corners in Hv by lia. pose proof (awrap_range nt i Hi) as W.
+  unfold anode in *. cbn [In] in Hv.
+  assert (B : forall a b, 1 <= a <= nt -> b <= nz -> b * nt + (a - 1) < nt * (nz + 1)).
+  { intros a b Ha Hb. pose proof (Nat.mul_le_mono_r b nz nt Hb). lia. }
+  repeat (destruct Hv as [Hv|Hv]; [subst v; apply B; lia|]). contradiction.
+Qed.
+
+(** the ring closes: the last cell of ring j and the first cell of ring j share an edge (the two nodes i = 1) *)
+Theorem annulus_ring_closes nt j : 1 <= nt -> 1 <= j ->
+  nth 0 (conn_annulus nt nt j) 0 = nth 1 (conn_annulus nt 1 j) 0 /\
+  nth 3 (conn_annulus nt nt j) 0 = nth 2 (conn_annulus nt 1 j) 0.
+Proof.
+  intros Hn Hj. rewrite !conn_annulus_corners by lia. unfold awrap. rewrite Nat.eqb_refl. cbn [nth]. split; reflexivity.
+Qed.
+
 (** ** the filter keeps exactly the selected cells, and writes one offset per kept cell *)
 Lemma filter_cells_count nvert include tags cells : forall st,
   fs_cells (fold_left (filter_cell nvert include tags) cells st) =
